@@ -89,7 +89,17 @@ def U_PW(k):  # integer parameter: Z^(k/4)
     return np.array([[1, 0], [0, np.exp(1j * np.pi * k / 4)]], dtype=complex)
 
 
+def U_ZZ(t):  # exp(-i t/2 Z(x)Z): used for a *busy* (not parallelisable) native gate that nevertheless has a unitary
+    return np.diag([np.exp(-0.5j * t), np.exp(0.5j * t), np.exp(0.5j * t), np.exp(-0.5j * t)]) @ (
+        np.array([[1, 0, 0, 1j], [0, 1, 1j, 0], [0, 1j, 1, 0], [1j, 0, 0, 1]], dtype=complex) / np.sqrt(2))
+
+
+# gates declared as BusyGateDefinition (they count as using every qubit); never chosen by the program generators,
+# a check that wants one inserts it itself
+BUSY = {"GZZ"}
+
 RAW = {
+    "GZZ": ([("a", Q), ("b", Q), ("t", F)], U_ZZ),
     "Rx": ([("q", Q), ("t", F)], U_Rx),
     "Ry": ([("q", Q), ("t", F)], U_Ry),
     "Rz": ([("q", Q), ("t", F)], U_Rz),
@@ -140,13 +150,14 @@ RAW_B.update({
 })
 VARIANTS = {"A": RAW, "B": RAW_B}
 
-GATES = {name: [(pn, k) for pn, k in params] for name, (params, fn) in RAW.items()}
-for _n in list(RAW):
+GATES = {name: [(pn, k) for pn, k in params] for name, (params, fn) in RAW.items() if name not in BUSY}
+for _n in list(GATES):
     GATES["I_" + _n] = GATES[_n]
+ALL_SIGNATURES = dict(GATES, **{name: [(pn, k) for pn, k in RAW[name][0]] for name in BUSY})
 
 
 def nq(name):
-    return sum(1 for _p, k in GATES[name] if k == "q")
+    return sum(1 for _p, k in ALL_SIGNATURES[name] if k == "q")
 
 
 def base(name):
